@@ -17,6 +17,7 @@ pub mod c15;
 pub mod c16;
 pub mod c17;
 pub mod c19;
+pub mod c20;
 
 #[derive(Clone, Debug)]
 pub struct Ctx {
@@ -55,6 +56,7 @@ pub fn run(id: &str, ctx: &Ctx) -> i32 {
         "C17" => c17::run17(ctx),
         "C18" => c17::run18(ctx),
         "C19" => c19::run(ctx),
+        "C20" => c20::run(ctx),
         _ => {
             eprintln!("unknown property {id}");
             2
